@@ -43,8 +43,11 @@ A(Raw(r"""
 pub uninterp spec fn md4_spec(data: Seq<u8>) -> Seq<u8>;
 pub uninterp spec fn md5_spec(data: Seq<u8>) -> Seq<u8>;
 pub uninterp spec fn hmac_md5_spec(key: Seq<u8>, data: Seq<u8>) -> Seq<u8>;
-pub broadcast axiom fn axiom_digest_len(a: Seq<u8>, b: Seq<u8>)
-    ensures #[trigger] md4_spec(a).len() == 16, #[trigger] md5_spec(a).len() == 16, #[trigger] hmac_md5_spec(a, b).len() == 16;
+// (three axioms in one group: with the three #[trigger] terms in ONE axiom Verus builds a single multi-pattern that never fires)
+pub broadcast axiom fn axiom_md4_len(a: Seq<u8>) ensures #[trigger] md4_spec(a).len() == 16;
+pub broadcast axiom fn axiom_md5_len(a: Seq<u8>) ensures #[trigger] md5_spec(a).len() == 16;
+pub broadcast axiom fn axiom_hmac_md5_len(a: Seq<u8>, b: Seq<u8>) ensures #[trigger] hmac_md5_spec(a, b).len() == 16;
+pub broadcast group axiom_digest_len { axiom_md4_len, axiom_md5_len, axiom_hmac_md5_len }
 /// std: str::to_uppercase
 pub uninterp spec fn upper(s: Seq<char>) -> Seq<char>;
 
@@ -195,6 +198,345 @@ pub open spec fn signature_view(sum: Seq<u8>, seq_num: u32) -> MV {
 }
 """, mod="ntlm", name="ntlm_layouts"))
 
+
+A(Raw(r"""
+/// the state array has 256 entries by its type: every Rc4 value is well formed (PROVED; lets trait methods call process() without a precondition)
+pub proof fn lemma_rc4_wf(r: &Rc4) ensures well_formed(r.view()) {}
+""", mod="rc4", name="rc4_wf"))
+
+def _magic(text):
+    return "seq![" + ", ".join("0x%02xu8" % b for b in text.encode("ascii") + b"\0") + "]"
+A(Raw(r"""
+// ---------------- MS-NLMP 3.4.5.2 / 3.4.5.3: the four magic constants (ASCII, NUL terminated), spelled from the document
+/// "session key to client-to-server signing key magic constant\0"
+pub open spec fn c2s_sign_magic() -> Seq<u8> { %s }
+/// "session key to server-to-client signing key magic constant\0"
+pub open spec fn s2c_sign_magic() -> Seq<u8> { %s }
+/// "session key to client-to-server sealing key magic constant\0"
+pub open spec fn c2s_seal_magic() -> Seq<u8> { %s }
+/// "session key to server-to-client sealing key magic constant\0"
+pub open spec fn s2c_seal_magic() -> Seq<u8> { %s }
+""" % (_magic("session key to client-to-server signing key magic constant"), _magic("session key to server-to-client signing key magic constant"),
+       _magic("session key to client-to-server sealing key magic constant"), _magic("session key to server-to-client sealing key magic constant")),
+      mod="ntlm", name="magic_constants"))
+
+A(Raw(r"""
+// ---------------- PROVED facts over the specification functions
+/// C16 round trip: what a peer seals with (handle state st, signing key k, sequence number n) is accepted by a context whose decrypt handle is in
+/// state st and whose verify key is k, and yields the message
+pub proof fn lemma_unwrap_wrap(st: rc4::RcState, k: Seq<u8>, n: u32, m: Seq<u8>)
+    ensures unseal_spec_fn(st, k, seal_spec_fn(st, k, n, m)) == Some(m)
+{
+    broadcast use axiom_digest_len;
+    let st2 = rc4::advance(st, m.len());
+    let h = hmac_md5_spec(k, le32(n) + m);
+    let h8 = h.take(8);
+    let sig = mac_spec(st2, k, n, m);
+    let c = rc4::rc4_xor(st, m);
+    let token = sig + c;
+    rc4::lemma_keystream_len(st, m.len());
+    rc4::lemma_keystream_len(st2, 8);
+    assert(le32(1).len() == 4 && le32(n).len() == 4);
+    assert(rc4::rc4_xor(st2, h8).len() == 8);
+    assert(sig.len() == 16);
+    assert(c.len() == m.len());
+    assert(token.take(4) =~= le32(1));
+    assert(token.skip(16) =~= c);
+    assert(token.subrange(4, 12) =~= rc4::rc4_xor(st2, h8));
+    assert(token.subrange(12, 16) =~= le32(n));
+    rc4::lemma_xor_involution(st, m);
+    rc4::lemma_xor_involution(st2, h8);
+    assert(rc4::rc4_xor(st, c) =~= m);
+    assert(rc4::rc4_xor(st2, rc4::rc4_xor(st2, h8)) =~= h8);
+}
+/// C15: the RC4-wrapped random session key unwraps under the same key exchange key
+pub proof fn lemma_rc4k_unwrap(key: Seq<u8>, m: Seq<u8>)
+    ensures rc4::rc4_xor(rc4::ksa(key), rc4::rc4_xor(rc4::ksa(key), m)) =~= m
+{ rc4::lemma_xor_involution(rc4::ksa(key), m); }
+/// C15 / C17: Ntlm::new(d, u, p) and Ntlm::from_hash(d, u, MD4(UTF16LE(p))) compute the same response keys
+pub proof fn lemma_new_from_hash_agree(d: Seq<char>, u: Seq<char>, p: Seq<char>)
+    ensures ntowfv2_of_hash(nt_hash_of(p), u, d) == ntowfv2_of_hash(md4_spec(utf16le(p)), u, d)
+{}
+/// C15: a response built as proof ++ temp with proof = HMAC_MD5(key, challenge ++ temp) passes the server's check
+pub proof fn lemma_nt_response_verifies(key_nt: Seq<u8>, sc: Seq<u8>, temp: Seq<u8>)
+    ensures nt_response_verifies(key_nt, sc, nt_proof_str(key_nt, sc, temp) + temp)
+{
+    broadcast use axiom_digest_len;
+    let pr = nt_proof_str(key_nt, sc, temp);
+    let resp = pr + temp;
+    assert(resp.take(16) =~= pr);
+    assert(resp.skip(16) =~= temp);
+}
+pub proof fn lemma_lm_response_verifies(key_lm: Seq<u8>, sc: Seq<u8>, cc: Seq<u8>)
+    requires cc.len() == 8
+    ensures lm_response_verifies(key_lm, sc, hmac_md5_spec(key_lm, sc + cc) + cc)
+{
+    broadcast use axiom_digest_len;
+    let pr = hmac_md5_spec(key_lm, sc + cc);
+    let resp = pr + cc;
+    assert(resp.take(16) =~= pr);
+    assert(resp.skip(16) =~= cc);
+}
+/// the variable part of an NTLM message: the last field, named "Payload", raw bytes, and no field's option can leave it out
+pub open spec fn payload_last(f: Seq<(Seq<char>, MV)>) -> bool {
+    &&& f.len() >= 1 && f.last().0 == "Payload"@ && f.last().1 is Bytes
+    &&& forall|i: int| 0 <= i < f.len() - 1 ==> (#[trigger] f[i]).0 != "Payload"@
+    &&& forall|i: int| 0 <= i < f.len() ==> opt_of((#[trigger] f[i]).1) != OV::Skip("Payload"@)
+}
+/// the serialization of such a message ends with the payload bytes
+pub proof fn lemma_payload_suffix(f: Seq<(Seq<char>, MV)>, i: int, skip: Set<Seq<char>>)
+    requires payload_last(f), 0 <= i < f.len(), !skip.contains("Payload"@)
+    ensures ({ let p = f.last().1->Bytes_0; let s = ser_fields_from(f, i, skip); s.len() >= p.len() && s.skip(s.len() - p.len()) =~= p })
+    decreases f.len() - i
+{
+    let p = f.last().1->Bytes_0;
+    reveal_with_fuel(ser_fields_from, 2);
+    if i == f.len() - 1 {
+        reveal_with_fuel(ser, 1);
+        assert(ser(f[i].1) == p);
+        let skip2 = match opt_of(f[i].1) { OV::Skip(k) => skip.insert(k), _ => skip };
+        assert(ser_fields_from(f, i + 1, skip2) =~= Seq::<u8>::empty());
+        assert(ser_fields_from(f, i, skip) =~= p);
+    } else if skip.contains(f[i].0) {
+        lemma_payload_suffix(f, i + 1, skip);
+    } else {
+        let skip2 = match opt_of(f[i].1) { OV::Skip(k) => skip.insert(k), _ => skip };
+        assert(!skip2.contains("Payload"@));
+        lemma_payload_suffix(f, i + 1, skip2);
+        let t = ser_fields_from(f, i + 1, skip2);
+        assert(ser_fields_from(f, i, skip) == ser(f[i].1) + t);
+    }
+}
+/// every value of the AV-pair map is at least 4 bytes shorter than `n`
+pub open spec fn values_bounded(m: &HashMap<AvId, Vec<u8>>, n: int) -> bool { forall|k: AvId| #[trigger] m.m().contains_key(k) ==> m.m()[k]@.len() + 4 <= n }
+/// C07: a successful read of one AV pair consumes at least its 4 byte header
+pub proof fn lemma_av_pair_min()
+    ensures min_wire_len(av_pair_view()) >= 4
+{
+    reveal_with_fuel(min_wire_len, 4); reveal_with_fuel(min_fields_from, 4);
+    let f = av_pair_view()->Comp_0;
+    assert(f.len() == 3);
+    assert(f[0].1 == MV::U16(0, true)); assert(f[1].1 is Dyn);
+    assert(min_wire_len(f[0].1) == 2); assert(min_wire_len(f[1].1) == 2); assert(min_fields_from(f, 1) == 2); assert(min_fields_from(f, 0) == 4);
+}
+""", mod="ntlm", name="ntlm_lemmas"))
+
+A(Raw(r"""
+// ---------------- AUTHENTICATE_MESSAGE (MS-NLMP 2.2.1.3)
+/// one (Len, MaxLen, BufferOffset) descriptor of a variable field: both lengths equal, offset counted from the start of the message
+pub open spec fn desc_bytes(d: (u16, u32)) -> Seq<u8> { le16(d.0) + le16(d.0) + le32(d.1) }
+/// size of the fixed part written by this client: 64 bytes, 72 with the VERSION structure (the 16 byte MIC follows it)
+pub open spec fn auth_fixed_len(flags: u32) -> int { if flags & 0x02000000 == 0 { 64 } else { 72 } }
+pub open spec fn auth_view(v: Seq<(u16, u32)>, flags: u32) -> MV {
+    MV::Comp(seq![("Signature"@, MV::Check(Box::new(MV::Bytes(ntlmssp())))), ("MessageType"@, MV::Check(Box::new(MV::U32(3, true)))), ("LmChallengeResponseLen"@, MV::U16(v[0].0, true)), ("LmChallengeResponseMaxLen"@, MV::U16(v[0].0, true)), ("LmChallengeResponseBufferOffset"@, MV::U32(v[0].1, true)), ("NtChallengeResponseLen"@, MV::U16(v[1].0, true)), ("NtChallengeResponseMaxLen"@, MV::U16(v[1].0, true)), ("NtChallengeResponseBufferOffset"@, MV::U32(v[1].1, true)), ("DomainNameLen"@, MV::U16(v[2].0, true)), ("DomainNameMaxLen"@, MV::U16(v[2].0, true)), ("DomainNameBufferOffset"@, MV::U32(v[2].1, true)), ("UserNameLen"@, MV::U16(v[3].0, true)), ("UserNameMaxLen"@, MV::U16(v[3].0, true)), ("UserNameBufferOffset"@, MV::U32(v[3].1, true)), ("WorkstationLen"@, MV::U16(v[4].0, true)), ("WorkstationMaxLen"@, MV::U16(v[4].0, true)), ("WorkstationBufferOffset"@, MV::U32(v[4].1, true)), ("EncryptedRandomSessionLen"@, MV::U16(v[5].0, true)), ("EncryptedRandomSessionMaxLen"@, MV::U16(v[5].0, true)), ("EncryptedRandomSessionBufferOffset"@, MV::U32(v[5].1, true)), ("NegotiateFlags"@, MV::Dyn(Box::new(MV::U32(flags, true)), flags_ov(flags))), ("Version"@, version_view())])
+}
+/// descriptor bytes followed by `rest` (right-nested like the serialization itself, so that equalities are syntactic)
+pub open spec fn desc_then(d: (u16, u32), rest: Seq<u8>) -> Seq<u8> { le16(d.0) + (le16(d.0) + (le32(d.1) + rest)) }
+pub open spec fn auth_bytes_raw(v: Seq<(u16, u32)>, flags: u32) -> Seq<u8> {
+    ntlmssp() + (le32(3) + desc_then(v[0], desc_then(v[1], desc_then(v[2], desc_then(v[3], desc_then(v[4], desc_then(v[5],
+        le32(flags) + (if flags & 0x02000000 == 0 { Seq::<u8>::empty() } else { version_bytes() }))))))))
+}
+/// the six descriptors for fields of the given lengths laid out back to back after the MIC
+pub open spec fn auth_descs(lm: int, nt: int, d: int, u: int, w: int, k: int, flags: u32) -> Seq<(u16, u32)> {
+    let base = auth_fixed_len(flags) + 16;
+    seq![(lm as u16, base as u32), (nt as u16, (base + lm) as u32), (d as u16, (base + lm + nt) as u32), (u as u16, (base + lm + nt + d) as u32),
+         (w as u16, (base + lm + nt + d + u) as u32), (k as u16, (base + lm + nt + d + u + w) as u32)]
+}
+/// the (len, offset) pairs found in a message of that layout
+pub open spec fn auth_vals(m: MV) -> Seq<(u16, u32)> {
+    let f = m->Comp_0;
+    seq![(f[2].1->U16_0, f[4].1->U32_0), (f[5].1->U16_0, f[7].1->U32_0), (f[8].1->U16_0, f[10].1->U32_0), (f[11].1->U16_0, f[13].1->U32_0), (f[14].1->U16_0, f[16].1->U32_0), (f[17].1->U16_0, f[19].1->U32_0)]
+}
+pub proof fn lemma_ser_step(f: Seq<(Seq<char>, MV)>, i: int, skip: Set<Seq<char>>)
+    requires 0 <= i < f.len(), !skip.contains(f[i].0)
+    ensures ser_fields_from(f, i, skip) == ser(f[i].1) + ser_fields_from(f, i + 1, match opt_of(f[i].1) { OV::Skip(k) => skip.insert(k), _ => skip })
+{ reveal_with_fuel(ser_fields_from, 2); }
+pub proof fn lemma_auth_view_bytes(v: Seq<(u16, u32)>, flags: u32)
+    requires v.len() == 6
+    ensures ser(auth_view(v, flags)) == auth_bytes_raw(v, flags), auth_bytes_raw(v, flags).len() == auth_fixed_len(flags)
+{
+    let f = auth_view(v, flags)->Comp_0; let e = Set::<Seq<char>>::empty();
+    reveal_with_fuel(ser, 3);
+    assert(f.len() == 22);
+    let s2 = match flags_ov(flags) { OV::Skip(k) => e.insert(k), _ => e };
+    let ver = if flags & 0x02000000 == 0 { Seq::<u8>::empty() } else { version_bytes() };
+    assert(ser_fields_from(f, 21, s2) =~= ver) by {
+        if flags & 0x02000000 == 0 {
+            assert(s2.contains(f[21].0));
+            reveal_with_fuel(ser_fields_from, 3);
+        } else {
+            lemma_ser_step(f, 21, s2);
+            reveal_with_fuel(ser_fields_from, 2);
+            assert(ser_fields_from(f, 22, s2) =~= Seq::<u8>::empty());
+            lemma_version_bytes();
+        }
+    }
+    lemma_ser_step(f, 20, e);
+    assert(ser(f[20].1) == le32(flags));
+    assert(ser_fields_from(f, 20, e) == le32(flags) + ver);
+    lemma_ser_step(f, 19, e);
+    lemma_ser_step(f, 18, e);
+    lemma_ser_step(f, 17, e);
+    lemma_ser_step(f, 16, e);
+    lemma_ser_step(f, 15, e);
+    lemma_ser_step(f, 14, e);
+    lemma_ser_step(f, 13, e);
+    lemma_ser_step(f, 12, e);
+    lemma_ser_step(f, 11, e);
+    lemma_ser_step(f, 10, e);
+    lemma_ser_step(f, 9, e);
+    lemma_ser_step(f, 8, e);
+    lemma_ser_step(f, 7, e);
+    lemma_ser_step(f, 6, e);
+    lemma_ser_step(f, 5, e);
+    lemma_ser_step(f, 4, e);
+    lemma_ser_step(f, 3, e);
+    lemma_ser_step(f, 2, e);
+    lemma_ser_step(f, 1, e);
+    lemma_ser_step(f, 0, e);
+    assert(ser(f[19].1) == le32(v[5].1));
+    assert(ser(f[18].1) == le16(v[5].0));
+    assert(ser(f[17].1) == le16(v[5].0));
+    assert(ser(f[16].1) == le32(v[4].1));
+    assert(ser(f[15].1) == le16(v[4].0));
+    assert(ser(f[14].1) == le16(v[4].0));
+    assert(ser(f[13].1) == le32(v[3].1));
+    assert(ser(f[12].1) == le16(v[3].0));
+    assert(ser(f[11].1) == le16(v[3].0));
+    assert(ser(f[10].1) == le32(v[2].1));
+    assert(ser(f[9].1) == le16(v[2].0));
+    assert(ser(f[8].1) == le16(v[2].0));
+    assert(ser(f[7].1) == le32(v[1].1));
+    assert(ser(f[6].1) == le16(v[1].0));
+    assert(ser(f[5].1) == le16(v[1].0));
+    assert(ser(f[4].1) == le32(v[0].1));
+    assert(ser(f[3].1) == le16(v[0].0));
+    assert(ser(f[2].1) == le16(v[0].0));
+    assert(ser(f[1].1) == le32(3));
+    assert(ser(f[0].1) == ntlmssp());
+    assert(version_bytes().len() == 8);
+}
+
+/// C04: in header ++ MIC(16) ++ payload every (Len, BufferOffset) pair written by authenticate_message addresses exactly its field
+pub proof fn lemma_auth_fields_addressed(lm: Seq<u8>, nt: Seq<u8>, d: Seq<u8>, u: Seq<u8>, w: Seq<u8>, k: Seq<u8>, flags: u32, mic: Seq<u8>)
+    requires mic.len() == 16, lm.len() <= 0xffff, nt.len() <= 0xffff, d.len() <= 0xffff, u.len() <= 0xffff, w.len() <= 0xffff, k.len() <= 0xffff
+    ensures ({
+        let v = auth_descs(lm.len() as int, nt.len() as int, d.len() as int, u.len() as int, w.len() as int, k.len() as int, flags);
+        let msg = auth_bytes_raw(v, flags) + mic + (lm + nt + d + u + w + k);
+        &&& msg.subrange(v[0].1 as int, v[0].1 + v[0].0) == lm
+        &&& msg.subrange(v[1].1 as int, v[1].1 + v[1].0) == nt
+        &&& msg.subrange(v[2].1 as int, v[2].1 + v[2].0) == d
+        &&& msg.subrange(v[3].1 as int, v[3].1 + v[3].0) == u
+        &&& msg.subrange(v[4].1 as int, v[4].1 + v[4].0) == w
+        &&& msg.subrange(v[5].1 as int, v[5].1 + v[5].0) == k
+        &&& msg.len() == v[5].1 + v[5].0
+    })
+{
+    let v = auth_descs(lm.len() as int, nt.len() as int, d.len() as int, u.len() as int, w.len() as int, k.len() as int, flags);
+    lemma_auth_view_bytes(v, flags);
+    let h = auth_bytes_raw(v, flags);
+    let msg = h + mic + (lm + nt + d + u + w + k);
+    let base = auth_fixed_len(flags) + 16;
+    assert(v[0] == (lm.len() as u16, base as u32));
+    assert(v[1] == (nt.len() as u16, (base + lm.len()) as u32));
+    assert(v[2] == (d.len() as u16, (base + lm.len() + nt.len()) as u32));
+    assert(v[3] == (u.len() as u16, (base + lm.len() + nt.len() + d.len()) as u32));
+    assert(v[4] == (w.len() as u16, (base + lm.len() + nt.len() + d.len() + u.len()) as u32));
+    assert(v[5] == (k.len() as u16, (base + lm.len() + nt.len() + d.len() + u.len() + w.len()) as u32));
+    assert(msg.subrange(v[0].1 as int, v[0].1 + v[0].0) =~= lm);
+    assert(msg.subrange(v[1].1 as int, v[1].1 + v[1].0) =~= nt);
+    assert(msg.subrange(v[2].1 as int, v[2].1 + v[2].0) =~= d);
+    assert(msg.subrange(v[3].1 as int, v[3].1 + v[3].0) =~= u);
+    assert(msg.subrange(v[4].1 as int, v[4].1 + v[4].0) =~= w);
+    assert(msg.subrange(v[5].1 as int, v[5].1 + v[5].0) =~= k);
+}
+pub proof fn lemma_version_bytes() ensures ser(version_view()) =~= version_bytes(), version_bytes().len() == 8
+{
+    reveal_with_fuel(ser, 8); reveal_with_fuel(ser_fields_from, 8); reveal_with_fuel(ser_seq_from, 8);
+    let f = version_view()->Comp_0;
+    assert(f.len() == 5);
+    assert(le16(0) =~= seq![0u8, 0u8]) by { assert((0u16 & 0xff) as u8 == 0u8 && ((0u16 >> 8) & 0xff) as u8 == 0u8) by(bit_vector); }
+    assert(ser(f[3].1) =~= seq![0u8, 0u8, 0u8]);
+    assert(ser(f[0].1) =~= seq![6u8]);
+    assert(ser(f[1].1) =~= seq![0u8]);
+    assert(ser(f[2].1) =~= le16(6002));
+    assert(ser(f[4].1) =~= seq![0x0Fu8]);
+}
+""", mod="ntlm", name="auth_message_specs"))
+
+A(Raw(r"""
+/// the AUTHENTICATE token as a function of what went into it (MS-NLMP 3.1.5.1.2): header ++ MIC ++ payload, the MIC being HMAC_MD5(ExportedSessionKey,
+/// NEGOTIATE ++ CHALLENGE ++ AUTHENTICATE with a zero MIC), the payload LmResponse ++ NtResponse ++ Domain ++ User ++ RC4K(KeyExchangeKey, ExportedSessionKey)
+pub open spec fn is_auth_token(tok: Seq<u8>, key_nt: Seq<u8>, key_lm: Seq<u8>, dom: Seq<u8>, usr: Seq<u8>, k: Seq<u8>, neg: Seq<u8>, chal: Seq<u8>,
+                               sc: Seq<u8>, cc: Seq<u8>, time: Seq<u8>, info: Seq<u8>, hdr: Seq<u8>) -> bool {
+    let temp = ntlm_temp(time, cc, info);
+    let pr = nt_proof_str(key_nt, sc, temp);
+    let lm = hmac_md5_spec(key_lm, sc + cc) + cc;
+    let enc = rc4::rc4_xor(rc4::ksa(session_base_key(key_nt, pr)), k);
+    let payload = lm + (pr + temp) + dom + usr + enc;
+    &&& cc.len() == 8 && (hdr.len() == 64 || hdr.len() == 72)
+    &&& tok == hdr + hmac_md5_spec(k, neg + chal + (hdr + zeros(16) + payload)) + payload
+}
+""", mod="ntlm", name="auth_token_spec"))
+
+A(Raw(r"""
+// ---------------- NEGOTIATE_MESSAGE (MS-NLMP 2.2.1.1) as this client sends it: no domain, no workstation, empty payload
+pub open spec fn negotiate_view(flags: u32) -> MV {
+    MV::Comp(seq![("Signature"@, MV::Bytes(ntlmssp())), ("MessageType"@, MV::U32(1, true)), ("NegotiateFlags"@, MV::Dyn(Box::new(MV::U32(flags, true)), flags_ov(flags))),
+                  ("DomainNameLen"@, MV::U16(0, true)), ("DomainNameMaxLen"@, MV::U16(0, true)), ("DomainNameBufferOffset"@, MV::U32(0, true)),
+                  ("WorkstationLen"@, MV::U16(0, true)), ("WorkstationMaxLen"@, MV::U16(0, true)), ("WorkstationBufferOffset"@, MV::U32(0, true)),
+                  ("Version"@, version_view()), ("Payload"@, MV::Bytes(Seq::empty()))])
+}
+pub open spec fn negotiate_bytes(flags: u32) -> Seq<u8> {
+    ntlmssp() + (le32(1) + (le32(flags) + desc_then((0u16, 0u32), desc_then((0u16, 0u32), if flags & 0x02000000 == 0 { Seq::<u8>::empty() } else { version_bytes() }))))
+}
+/// the flags create_negotiate_message announces: KEY_EXCH | 128 | EXTENDED_SESSIONSECURITY | ALWAYS_SIGN | NTLM | SEAL | SIGN | REQUEST_TARGET | UNICODE
+pub open spec fn client_negotiate_flags() -> u32 { 0x60088235 }
+pub proof fn lemma_negotiate_view_bytes(flags: u32)
+    ensures ser(negotiate_view(flags)) == negotiate_bytes(flags), negotiate_bytes(flags).len() == (if flags & 0x02000000 == 0 { 32int } else { 40int })
+{
+    lemma_keys();
+    let f = negotiate_view(flags)->Comp_0; let e = Set::<Seq<char>>::empty();
+    reveal_with_fuel(ser, 3);
+    assert(f.len() == 11);
+    let s2 = match flags_ov(flags) { OV::Skip(k) => e.insert(k), _ => e };
+    let ver = if flags & 0x02000000 == 0 { Seq::<u8>::empty() } else { version_bytes() };
+    assert(ser_fields_from(f, 11, s2) =~= Seq::<u8>::empty()) by { reveal_with_fuel(ser_fields_from, 2); }
+    lemma_ser_step(f, 10, s2);
+    assert(ser(f[10].1) =~= Seq::<u8>::empty());
+    assert(ser_fields_from(f, 10, s2) =~= Seq::<u8>::empty());
+    assert(ser_fields_from(f, 9, s2) =~= ver) by {
+        if flags & 0x02000000 == 0 {
+            assert(s2.contains(f[9].0));
+            reveal_with_fuel(ser_fields_from, 2);
+        } else {
+            lemma_ser_step(f, 9, s2);
+            lemma_version_bytes();
+        }
+    }
+    lemma_ser_step(f, 8, s2); lemma_ser_step(f, 7, s2); lemma_ser_step(f, 6, s2); lemma_ser_step(f, 5, s2); lemma_ser_step(f, 4, s2); lemma_ser_step(f, 3, s2);
+    lemma_ser_step(f, 2, e); lemma_ser_step(f, 1, e); lemma_ser_step(f, 0, e);
+    assert(ser(f[8].1) == le32(0)); assert(ser(f[7].1) == le16(0)); assert(ser(f[6].1) == le16(0));
+    assert(ser(f[5].1) == le32(0)); assert(ser(f[4].1) == le16(0)); assert(ser(f[3].1) == le16(0));
+    assert(ser(f[2].1) == le32(flags)); assert(ser(f[1].1) == le32(1)); assert(ser(f[0].1) == ntlmssp());
+    assert(version_bytes().len() == 8);
+}
+
+/// C16: mirrored contexts (the peer's encrypt handle is in the state of my decrypt handle, its signing key is my verify key): what the peer seals I accept
+/// and get the message back; the token is 16 bytes longer than the message, so both handles move by |m| + 8 and the contexts stay mirrored
+pub proof fn lemma_mirrored_contexts(peer: &NTLMv2SecurityInterface, me: &NTLMv2SecurityInterface, m: Seq<u8>)
+    requires peer.encrypt.view() == me.decrypt.view(), peer.signing_key@ == me.verify_key@
+    ensures me.unseal_spec(peer.seal_spec(m)) == Some(m), peer.seal_spec(m).len() == m.len() + 16
+{
+    broadcast use axiom_digest_len;
+    let st = peer.encrypt.view();
+    lemma_unwrap_wrap(st, peer.signing_key@, peer.seq_num, m);
+    rc4::lemma_keystream_len(st, m.len());
+    rc4::lemma_keystream_len(rc4::advance(st, m.len()), 8);
+    assert(le32(1).len() == 4 && le32(peer.seq_num).len() == 4);
+}
+""", mod="ntlm", name="negotiate_specs"))
+
 MO = "-> (r: MessageOption)"
 FLAGS_CLOSURE = dict(params="node: &U32", ret=MO, spec="ensures r.ov() == flags_ov(node.val())")
 VERSION_FLAG_HINT = (r"if node\.inner\(\) & \(Negotiate::NtlmsspNegociateVersion as u32\) == 0", 1,
@@ -229,15 +571,40 @@ F("version", ret="c", props=["C04"], fuel=8,
         assert(is_static(f[3].1));
   }""")
 F("negotiate_message", ret="c", props=["C04", "C03"], closures={1: FLAGS_CLOSURE},
-  ensures=shape_clauses(NTLM, "negotiate_message", res="c"))
+  ensures=shape_clauses(NTLM, "negotiate_message", res="c") + [("C04", "view", "c.mv() == negotiate_view(flags)"), ("C04", "bytes", "ser(c.mv()) == negotiate_bytes(flags)")],
+  post="proof { let f = c.fields(); assert(f[0].1->Bytes_0 =~= ntlmssp()); assert(f =~= negotiate_view(flags)->Comp_0); lemma_negotiate_view_bytes(flags); }")
 F("challenge_message", ret="c", props=["C07"], closures={1: FLAGS_CLOSURE},
-  ensures=shape_clauses(NTLM, "challenge_message", res="c") + [("C07", "view", "c.mv() == challenge_view()")],
+  ensures=shape_clauses(NTLM, "challenge_message", res="c") + [("C07", "view", "c.mv() == challenge_view()"),
+      ("C07", "options", "c.ranges().len() == 13 && forall|i: int, o: OV| 0 <= i < 13 && #[trigger] c.ranges()[i].contains(o) ==> o == OV::None || o == OV::Skip(\"Version\"@)")],
   post="proof { assert(0u32 & 0x02000000 == 0) by(bit_vector); let f = c.fields(); assert(f[6].1->Bytes_0 =~= zeros(8)); assert(f[7].1->Bytes_0 =~= zeros(8)); assert(f =~= challenge_view()->Comp_0); }")
-F("authenticate_message", props=["C04", "C15"], body_sub=CONCAT_VECS, closures={1: FLAGS_CLOSURE})
-F("get_payload_field", props=["C07"])
+_AN = ["lm_challenge_response", "nt_challenge_response", "domain", "user", "workstation", "encrypted_random_session_key"]
+_AL = [n + "@.len()" for n in _AN]
+AUTH_SMALL = " && ".join(l + " <= 0xffff" for l in _AL)
+AUTH_DESCS = "auth_descs(%s, flags)" % ", ".join("%s as int" % l for l in _AL)
+F("authenticate_message", props=["C04", "C15", "C07"], body_sub=CONCAT_VECS, closures={1: FLAGS_CLOSURE},
+  requires=[" + ".join(_AL) + " <= 0x7fffffff"],
+  ensures=shape_clauses(NTLM, "authenticate_message", res="r.0") + [
+      ("C04", "payload", "r.1@ =~= " + " + ".join(n + "@" for n in _AN)),
+      ("C04", "layout", "r.0.mv() == auth_view(auth_vals(r.0.mv()), flags)"),
+      ("C04", "bytes", "ser(r.0.mv()) == auth_bytes_raw(auth_vals(r.0.mv()), flags) && ser(r.0.mv()).len() == auth_fixed_len(flags)"),
+      ("C04", "descriptors", "%s ==> auth_vals(r.0.mv()) == %s" % (AUTH_SMALL, AUTH_DESCS))],
+  pre="proof { reveal_with_fuel(flat, 8); }",
+  post="""proof { let f = r.0.fields(); let v = auth_vals(r.0.mv()); assert(f.len() == 22); assert(v.len() == 6);
+   assert(f[0].1->Check_0->Bytes_0 =~= ntlmssp());
+   assert(f =~= auth_view(v, flags)->Comp_0);
+   lemma_auth_view_bytes(v, flags);
+   if %s { assert(v =~= %s); }
+ }""" % (AUTH_SMALL, AUTH_DESCS))
+F("get_payload_field", props=["C07", "C04"],
+  requires=["payload_last(message.fields())"],
+  ensures=[("C07,C04", "field-inside-the-message", "r is Ok ==> buffer_offset + length <= ser(message.mv()).len() && r->Ok_0@ == ser(message.mv()).subrange(buffer_offset as int, buffer_offset + length)"),
+           (None, "length", "r is Ok ==> r->Ok_0@.len() == length")],
+  pre="""proof { lemma_payload_suffix(message.fields(), 0, Set::empty()); reveal_with_fuel(ser, 1);
+        let f = message.fields(); assert(has_key(f, "Payload"@)); assert(first_key(f, "Payload"@) == f.len() - 1); }""")
 F("av_pair", ret="c", props=["C07"],
   closures={1: dict(params="node: &U16", ret=MO, spec='ensures r.ov() == OV::Size("Value"@, node.val() as usize)')},
-  ensures=shape_clauses(NTLM, "av_pair", res="c") + [("C07", "view", "c.mv() == av_pair_view()")],
+  ensures=shape_clauses(NTLM, "av_pair", res="c") + [("C07", "view", "c.mv() == av_pair_view()"),
+      ("C07", "options", "c.ranges().len() == 3 && forall|i: int, o: OV| 0 <= i < 3 && #[trigger] c.ranges()[i].contains(o) ==> o == OV::None || (o is Size && o->Size_0 == \"Value\"@)")],
   post="proof { assert(c.fields() =~= av_pair_view()->Comp_0); }")
 SUM8 = "(if check_sum is Some { check_sum->Some_0@.take(8) } else { zeros(8) })"
 SEQ = "(if seq_num is Some { seq_num->Some_0 } else { 0u32 })"
@@ -247,29 +614,169 @@ F("message_signature_ex", ret="c", props=["C16", "C04"], fuel=5,
       ("C16,C04", "view", "c.mv() == signature_view(%s, %s)" % (SUM8, SEQ)),
       ("C16,C04", "bytes", "ser(c.mv()) =~= le32(1) + %s + le32(%s)" % (SUM8, SEQ))],
   post="proof { let f = c.fields(); assert(f[1].1->Bytes_0 =~= %s); assert(f =~= signature_view(%s, %s)->Comp_0); }" % (SUM8, SUM8, SEQ))
-F("read_target_info", props=["C07"], nloops=1, loops={1: "decreases stream.rest().len()"})
+F("read_target_info", props=["C07"], nloops=1,
+  loops={1: "invariant stream.rest().len() <= data@.len(), values_bounded(&result, data@.len() as int)\n decreases stream.rest().len()"},
+  ensures=[("C07", "values-inside-the-input", "r is Ok ==> values_bounded(&r->Ok_0, data@.len() as int)")],
+  hints=[(r"element\.read\(&mut stream\)\?;", 1, """proof { lemma_av_pair_min(); lemma_keys();
+            element.axiom_ranges();
+            reveal_with_fuel(same_shape, 3);
+            let f = av_pair_view()->Comp_0; let e = element.fields();
+            assert(f.len() == 3 && e.len() == 3);
+            assert(f[0].0 == e[0].0 && same_shape(f[0].1, e[0].1));
+            assert(f[1].0 == e[1].0 && same_shape(f[1].1, e[1].1));
+            assert(f[2].0 == e[2].0 && same_shape(f[2].1, e[2].1));
+            assert(element.ranges()[0].contains(opt_of(e[0].1)));
+            assert(element.ranges()[1].contains(opt_of(e[1].1)));
+            reveal_with_fuel(ser, 5); reveal_with_fuel(ser_fields_from, 5);
+            assert(e[2].1 is Bytes);
+            assert(ser(element.mv()).len() == 4 + e[2].1->Bytes_0.len());
+            assert(first_key(e, "Value"@) == 2);
+        }""")])
 F("z", props=["C15"], ensures=["r@ =~= zeros(m as nat)"])
-F("ntowfv2", props=["C15", "C17"], body_sub=UPPER)
-F("ntowfv2_hash", props=["C15"], body_sub=UPPER)
-F("lmowfv2", props=["C15"])
-F("compute_response_v2", props=["C15"], body_sub=CONCAT_VECS)
-F("kx_key_v2", props=["C15"])
-F("rc4k", props=["C15"], requires=["1 <= key@.len() <= 256"])
-F("mic", props=["C15"], body_sub=CONCAT_VECS)
-F("sign_key", props=["C16"], body_sub=CONCAT_SLICES)
-F("seal_key", props=["C16"], body_sub=CONCAT_SLICES)
-F("mac", props=["C16"], body_sub=CONCAT_SLICES)
-F("new", IMPL_NTLM, props=["C15", "C17"])
-F("from_hash", IMPL_NTLM, props=["C15"])
-F("create_negotiate_message", IMPL_AUTH, props=["C03", "C04"])
-F("read_challenge_message", IMPL_AUTH, props=["C07", "C15"], keys=True)
-F("build_security_interface", IMPL_AUTH, props=["C16"])
+F("ntowfv2", props=["C15", "C17"], body_sub=UPPER,
+  ensures=[("C15,C17", "ntowfv2", "r@ == ntowfv2_of_hash(nt_hash_of(password@), user@, domain@)")])
+F("ntowfv2_hash", props=["C15"], body_sub=UPPER,
+  ensures=[("C15", "ntowfv2-from-hash", "r@ == ntowfv2_of_hash(hash@, user@, domain@)")])
+F("lmowfv2", props=["C15"], ensures=[("C15", "lmowfv2", "r@ == ntowfv2_of_hash(nt_hash_of(password@), user@, domain@)")])
+TEMP = "ntlm_temp(time@, client_challenge@, server_name@)"
+PROOF = "nt_proof_str(response_key_nt@, server_challenge@, %s)" % TEMP
+F("compute_response_v2", props=["C15"], body_sub=CONCAT_VECS,
+  pre="broadcast use axiom_digest_len; proof { reveal_with_fuel(flat, 9); }",
+  ensures=[("C15", "nt-response", "r.0@ =~= %s + %s" % (PROOF, TEMP)),
+           ("C15", "nt-response-verifies", "nt_response_verifies(response_key_nt@, server_challenge@, r.0@)"),
+           ("C15", "lm-response", "r.1@ =~= hmac_md5_spec(response_key_lm@, server_challenge@ + client_challenge@) + client_challenge@"),
+           ("C15", "lm-response-verifies", "client_challenge@.len() == 8 ==> lm_response_verifies(response_key_lm@, server_challenge@, r.1@)"),
+           ("C15", "session-base-key", "r.2@ == session_base_key(response_key_nt@, %s)" % PROOF)],
+  hints=[(r"let nt_proof_str = ", 1, "proof { assert(temp@ =~= %s); }" % TEMP, "before"),
+         (r"let nt_proof_str = ", 1, "proof { assert(nt_proof_str@ == hmac_md5_spec(response_key_nt@, server_challenge@ + temp@)); }"),
+         (r"let session_base_key = ", 1, "proof { lemma_nt_response_verifies(response_key_nt@, server_challenge@, %s); if client_challenge@.len() == 8 { lemma_lm_response_verifies(response_key_lm@, server_challenge@, client_challenge@); } }" % TEMP)])
+F("kx_key_v2", props=["C15"], ensures=[("C15", "key-exchange-key", "r@ == session_base_key@")])
+F("rc4k", props=["C15"], requires=["1 <= key@.len() <= 256"], ensures=[("C15", "rc4k", "r@ =~= rc4::rc4_xor(rc4::ksa(key@), plaintext@)")])
+F("mic", props=["C15"], body_sub=CONCAT_VECS, pre="proof { reveal_with_fuel(flat, 5); }",
+  ensures=[("C15", "mic", "r@ == hmac_md5_spec(exported_session_key@, negotiate_message@ + challenge_message@ + authenticate_message@)")])
+F("sign_key", props=["C16"], body_sub=CONCAT_SLICES, pre="proof { reveal_with_fuel(flat, 4); }",
+  ensures=[("C16", "signkey", "r@ == sign_key_spec(exported_session_key@, if is_client { c2s_sign_magic() } else { s2c_sign_magic() })")])
+F("seal_key", props=["C16"], body_sub=CONCAT_SLICES, pre="proof { reveal_with_fuel(flat, 4); }",
+  ensures=[("C16", "sealkey", "r@ == sign_key_spec(exported_session_key@, if is_client { c2s_seal_magic() } else { s2c_seal_magic() })")])
+F("mac", props=["C16"], body_sub=CONCAT_SLICES, fuel=3,
+  pre="broadcast use axiom_digest_len; proof { reveal_with_fuel(flat, 4); lemma_rc4_wf(rc4_handle); }",
+  ensures=[("C16", "mac", "r@ =~= mac_spec(old(rc4_handle).view(), signing_key@, seq_num, data@)"),
+           ("C16", "handle-advanced-by-8", "final(rc4_handle).view() == rc4::advance(old(rc4_handle).view(), 8)")])
+F("new", IMPL_NTLM, props=["C15", "C17"],
+  ensures=[("C15,C17", "response-keys", "r.response_key_nt@ == ntowfv2_of_hash(nt_hash_of(password@), user@, domain@) && r.response_key_lm@ == r.response_key_nt@"),
+           (None, "fields", "r.domain@ == domain@ && r.user@ == user@ && r.password@ == password@ && r.negotiate_message is None && r.exported_session_key is None && !r.is_unicode")])
+F("from_hash", IMPL_NTLM, props=["C15"], pre='proof { reveal_strlit(""); }',
+  ensures=[("C15", "response-keys", "r.response_key_nt@ == ntowfv2_of_hash(password_hash@, user@, domain@) && r.response_key_lm@ == r.response_key_nt@"),
+           (None, "fields", "r.domain@ == domain@ && r.user@ == user@ && r.password@.len() == 0 && r.negotiate_message is None && r.exported_session_key is None && !r.is_unicode")])
+F("create_negotiate_message", IMPL_AUTH, props=["C03", "C04"],
+  ensures=[("C04,C03", "negotiate-bytes", "r is Ok && r->Ok_0@ == negotiate_bytes(client_negotiate_flags()) && r->Ok_0@.len() == 32"),
+           ("C03", "remembered-for-the-mic", "final(self).negotiate_message is Some && final(self).negotiate_message->Some_0@ == r->Ok_0@"),
+           (None, "frame", "final(self).exported_session_key == old(self).exported_session_key && final(self).response_key_nt == old(self).response_key_nt && final(self).response_key_lm == old(self).response_key_lm"
+                           " && final(self).domain == old(self).domain && final(self).user == old(self).user && final(self).password == old(self).password && final(self).is_unicode == old(self).is_unicode")],
+  pre="""proof { lemma_negotiate_view_bytes(client_negotiate_flags());
+        assert(0x40000000u32 | 0x20000000u32 | 0x00080000u32 | 0x00008000u32 | 0x00000200u32 | 0x00000020u32 | 0x00000010u32 | 0x00000004u32 | 0x00000001u32 == 0x60088235u32) by(bit_vector);
+        assert(0x60088235u32 & 0x02000000u32 == 0) by(bit_vector); }""")
+# ---------------- trait-impl methods that need a caller-order precondition.  A trait impl cannot add `requires`, so the REAL body is verified as an
+# inherent twin `<name>_checked` (impl header rewritten by impl_sub, function renamed) under the stated precondition, and the trait-impl method itself
+# is left as a stub WITHOUT any contract of its own (nothing about it is assumed beyond what the trait declares).  Each is reported as a finding.
+TWINS = {}
+def T(name, hdr, why, **kw):
+    TWINS[(name, hdr)] = (why, kw)
+NAME_BOUND = 0x07ffffff
+T("read_challenge_message", IMPL_AUTH,
+  why="verified as Ntlm::read_challenge_message_checked under `negotiate_message is Some` (create_negotiate_message was called before: cssp_connect does) and domain/user names below 2^27 characters",
+  props=["C07", "C15"], keys=True, fuel=5,
+  requires=["old(self).negotiate_message is Some", "old(self).domain@.len() <= %d && old(self).user@.len() <= %d" % (NAME_BOUND, NAME_BOUND)],
+  ensures=[("C15", "session-key-set", "r is Ok ==> final(self).exported_session_key is Some && final(self).exported_session_key->Some_0@.len() == 16"),
+           (None, "frame", "final(self).negotiate_message == old(self).negotiate_message && final(self).response_key_nt == old(self).response_key_nt && final(self).response_key_lm == old(self).response_key_lm"
+                           " && final(self).domain == old(self).domain && final(self).user == old(self).user && final(self).password == old(self).password"),
+           ("C15", "token", """r is Ok ==> exists|sc: Seq<u8>, cc: Seq<u8>, time: Seq<u8>, info: Seq<u8>, hdr: Seq<u8>| #[trigger] is_auth_token(r->Ok_0@, old(self).response_key_nt@, old(self).response_key_lm@,
+            final(self).domain_spec(), final(self).user_spec(), final(self).exported_session_key->Some_0@, old(self).negotiate_message->Some_0@, request@, sc, cc, time, info, hdr)""")],
+  pre="broadcast use axiom_digest_len, axiom_utf8_len, axiom_utf16le_len;",
+  hints=[(r"result\.read\(&mut stream\)\?;", 1, """proof {
+            result.axiom_ranges();
+            reveal_with_fuel(same_shape, 2);
+            let g = challenge_view()->Comp_0; let f = result.fields();
+            assert(g.len() == 13 && f.len() == 13);
+            assert forall|i: int| 0 <= i < 13 implies (#[trigger] f[i]).0 == g[i].0 by { assert(g[i].0 == f[i].0 && same_shape(g[i].1, f[i].1)); }
+            assert(g[12].0 == f[12].0 && same_shape(g[12].1, f[12].1));
+            assert forall|i: int| 0 <= i < 13 implies opt_of((#[trigger] f[i]).1) != OV::Skip("Payload"@) by { assert(result.ranges()[i].contains(opt_of(f[i].1))); }
+            assert(payload_last(f));
+        }"""),
+         (r"let tmp_final_auth_message = ", 1, "let ghost hdr = ser(auth_message_compute.0.mv()); let ghost pl = auth_message_compute.1@;", "before")],
+  post="""proof {
+            let k = self.exported_session_key->Some_0@;
+            assert(tmp_final_auth_message@ =~= hdr + zeros(16) + pl);
+            assert(r->Ok_0@ =~= hdr + signature@ + pl);
+            assert(pl =~= lm_challenge_response@ + nt_challenge_response@ + domain@ + user@ + encrypted_random_session_key@);
+            assert(is_auth_token(r->Ok_0@, old(self).response_key_nt@, old(self).response_key_lm@, self.domain_spec(), self.user_spec(), k, old(self).negotiate_message->Some_0@, request@,
+                server_challenge@, client_challenge@, timestamp@, target_name@, hdr));
+        }""")
+T("build_security_interface", IMPL_AUTH,
+  why="verified as Ntlm::build_security_interface_checked under `exported_session_key is Some` (read_challenge_message returned Ok before: cssp_connect calls it after)",
+  props=["C16"], requires=["self.exported_session_key is Some"], pre="broadcast use axiom_digest_len;",
+  ensures=[("C16", "client-seals-with-c2s-keys-from-seq-0", "forall|d: Seq<u8>| #[trigger] r.seal_spec(d) == seal_spec_fn(rc4::ksa(sign_key_spec(self.exported_session_key->Some_0@, c2s_seal_magic())), sign_key_spec(self.exported_session_key->Some_0@, c2s_sign_magic()), 0, d)"),
+           ("C16", "client-unseals-with-s2c-keys", "forall|d: Seq<u8>| #[trigger] r.unseal_spec(d) == unseal_spec_fn(rc4::ksa(sign_key_spec(self.exported_session_key->Some_0@, s2c_seal_magic())), sign_key_spec(self.exported_session_key->Some_0@, s2c_sign_magic()), d)")])
 F("get_domain_name", IMPL_AUTH, props=["C17"])
 F("get_user_name", IMPL_AUTH, props=["C17"])
 F("get_password", IMPL_AUTH, props=["C17"])
-F("new", IMPL_SEC, props=["C16"])
-F("gss_wrapex", IMPL_GSS, props=["C16"])
-F("gss_unwrapex", IMPL_GSS, props=["C16", "C01", "C07"], body_sub=CONCAT_VECS, keys=True)
+F("new", IMPL_SEC, props=["C16"],
+  ensures=[("C16", "fields", "r.encrypt == encrypt && r.decrypt == decrypt && r.signing_key == signing_key && r.verify_key == verify_key && r.seq_num == 0")])
+T("gss_wrapex", IMPL_GSS,
+  why="verified as NTLMv2SecurityInterface::gss_wrapex_checked under `seq_num < u32::MAX` (fewer than 2^32 - 1 messages sealed so far)",
+  props=["C16"], requires=["old(self).seq_num < u32::MAX"], fuel=4,
+  pre="proof { lemma_rc4_wf(&self.encrypt); rc4::lemma_keystream_split(self.encrypt.view(), data@.len(), 8); }",
+  ensures=[("C16", "seal", "r is Ok && r->Ok_0@ == old(self).seal_spec(data@)"),
+           ("C16", "state-continuity", "final(self).encrypt.view() == rc4::advance(old(self).encrypt.view(), data@.len() + 8)"),
+           ("C16", "sequence-number", "final(self).seq_num == old(self).seq_num + 1"),
+           ("C16", "frame", "final(self).signing_key == old(self).signing_key && final(self).verify_key == old(self).verify_key && final(self).decrypt == old(self).decrypt")])
+UNWRAP_HINTS = [
+    (r"signature\.read\(&mut stream\)\?;", 1, "let ghost sig0 = signature.mv();", "before"),
+    (r"signature\.read\(&mut stream\)\?;", 1, """proof {
+            reveal_with_fuel(is_static, 3); reveal_with_fuel(same_shape, 3);
+            reveal_with_fuel(ser, 5); reveal_with_fuel(ser_fields_from, 5);
+            let g = sig0->Comp_0; let f = signature.fields();
+            assert(g.len() == 3 && f.len() == 3);
+            assert(g[0].0 == f[0].0 && same_shape(g[0].1, f[0].1));
+            assert(g[1].0 == f[1].0 && same_shape(g[1].1, f[1].1));
+            assert(g[2].0 == f[2].0 && same_shape(g[2].1, f[2].1));
+            assert(is_static(sig0));
+            assert(ser(sig0).len() == 16);
+            assert(data@.len() >= 16);
+            assert(f[0].1 == MV::Check(Box::new(MV::U32(1, true))));
+            assert(f[1].1 is Bytes && f[1].1->Bytes_0.len() == 8);
+            assert(f[2].1 is U32 && f[2].1->U32_1);
+            assert(ser(signature.mv()) =~= le32(1) + f[1].1->Bytes_0 + le32(f[2].1->U32_0));
+            assert(ser(signature.mv()) == data@.take(16));
+            assert(data@.take(4) =~= le32(1));
+            let t = data@.take(16); let cs = f[1].1->Bytes_0; let sn = le32(f[2].1->U32_0);
+            assert(le32(1).len() == 4 && sn.len() == 4);
+            assert(t == le32(1) + cs + sn);
+            assert(t.subrange(4, 12) =~= cs);
+            assert(t.subrange(12, 16) =~= sn);
+            assert(data@.subrange(4, 12) =~= t.subrange(4, 12));
+            assert(data@.subrange(12, 16) =~= t.subrange(12, 16));
+            assert(stream.rest() =~= data@.skip(16));
+            assert(first_key(f, "Checksum"@) == 1);
+            assert(first_key(f, "SeqNum"@) == 2);
+        }"""),
+    (r"Ok\(plaintext_payload\)", 1, """proof {
+            assert(payload@ == data@.skip(16));
+            assert(plaintext_payload@ == rc4::rc4_xor(st, payload@));
+            assert(checksum@ == data@.subrange(4, 12));
+            assert(plaintext_checksum@ == rc4::rc4_xor(rc4::advance(st, payload@.len()), checksum@));
+            assert(seq_num@ == data@.subrange(12, 16));
+            assert(computed_checksum@ == hmac_md5_spec(vk, seq_num@ + plaintext_payload@));
+            assert(computed_checksum@.subrange(0, 8) =~= computed_checksum@.take(8));
+            assert(plaintext_checksum@ == computed_checksum@.take(8));
+            rc4::lemma_keystream_split(st, payload@.len(), 8);
+        }""", "before"),
+]
+F("gss_unwrapex", IMPL_GSS, props=["C16", "C01", "C07"], body_sub=CONCAT_VECS, keys=True,
+  pre="broadcast use axiom_digest_len; proof { lemma_rc4_wf(&self.decrypt); reveal_with_fuel(flat, 4); } let ghost st = self.decrypt.view(); let ghost vk = self.verify_key@;",
+  hints=UNWRAP_HINTS,
+  ensures=[("C16", "state-continuity", "r is Ok ==> final(self).decrypt.view() == rc4::advance(old(self).decrypt.view(), (data@.len() - 8) as nat)"),
+           ("C16", "frame", "final(self).seq_num == old(self).seq_num && final(self).verify_key == old(self).verify_key && final(self).signing_key == old(self).signing_key && final(self).encrypt == old(self).encrypt")])
 
 IMPL_RAW = {
     IMPL_AUTH: r"""
@@ -297,8 +804,17 @@ for name, hdr in list_fns(NTLM):
     if hdr in IMPL_RAW and hdr not in _seen:
         _seen.add(hdr)
         A(Raw(IMPL_RAW[hdr], mod="ntlm", name="specs of " + hdr, file=NTLM, impl=impl))
+    if (name, hdr) in TWINS:
+        A(Stub(NTLM, name, impl=impl, mod="ntlm", why=TWINS[(name, hdr)][0]))
+        continue
     kw = dict(FNS[(name, hdr)])
     A(Fn(NTLM, name, impl=impl, mod="ntlm", **kw))
+# the twins: same source function, found through a (textually different) regex on the same impl header, placed in an inherent impl block
+for (name, hdr), (why, kw) in TWINS.items():
+    ty = hdr.split(" for ")[1]
+    _t = Fn(NTLM, name, impl=_re.escape(hdr[5:]).replace("\\ ", r"\s+"), impl_sub=[(r"^impl .* for (\w+)$", r"impl \1")], rename=name + "_checked", mod="ntlm", **kw)
+    _t.impl_label = ty
+    A(_t)
 
 UNIT = Unit("ntlm", ["base.rs", "model.rs", "leaf.rs", "lemmas.rs", "unicode.rs", "collections.rs"], items,
             uses={"ntlm": ["use super::rc4::*;", "use super::sspi::*;", "use super::rc4;"]}, mods=["rc4", "sspi", "ntlm"])
